@@ -94,6 +94,21 @@ def gen(rng, ctx):
     if rng.random() < 0.2:
         cd = G.add_cycles(rng, cd, rng.randint(1, 2))
         kind = "cyclic" if kind == "acyclic" else "cyclic+pins"
+    elif rng.random() < 0.06:
+        # self-loop: a gate that reads itself (for single-input gates the loop replaces the driver)
+        gts = [n for n, t, _ in cd["nodes"] if t in G.ALL_GATES]
+        if gts:
+            g = rng.choice(gts)
+            tg = G.cd_types(cd)[g]
+            pg = G.cd_preds(cd)[g]
+            if tg in G.GATES1 or (len(pg) == 1 and rng.random() < 0.5):
+                cd["edges"] = [e for e in cd["edges"] if e[1] != g]
+            if [g, g] not in cd["edges"]:
+                cd["edges"].append([g, g])
+            # the former driver may have lost its only load
+            loaded = {u for u, _ in cd["edges"]}
+            cd["nodes"] = [[n, t, o or (n not in loaded and t != "bb_input")] for n, t, o in cd["nodes"]]
+            kind = "selfloop"
     tag = None
     if rng.random() < 0.35:
         cd, tag = hostile_names(rng, cd)
@@ -115,7 +130,12 @@ def gen(rng, ctx):
         k = len(pool) if mode == "complete" else rng.randint(0, min(len(pool), 4))
         sel = rng.sample(pool, k) if pool else []
         assumps.append({n: rng.random() < 0.5 for n in sel})
-    return {"c": cd, "kind": kind, "hostile": tag, "assumps": assumps, "via": rng.choice(["graph", "api"]), "val_int": rng.random() < 0.3}
+    retype = None
+    multi = [n for n in nodes if tps[n] in G.GATESN]
+    if multi and rng.random() < 0.3:
+        g = rng.choice(multi)
+        retype = [g, rng.choice([t for t in G.GATESN if t != tps[g]])]
+    return {"c": cd, "kind": kind, "hostile": tag, "assumps": assumps, "via": rng.choice(["graph", "api"]), "val_int": rng.random() < 0.3, "retype": retype}
 
 
 def _lib(ctx, name):
@@ -237,15 +257,32 @@ def check(case, ctx):
         return check_large(case, ctx)
     cg = ctx.cg
     cd = case["c"]
-    via = case["via"] if "cyclic" not in case["kind"] else "graph"
+    via = case["via"] if ("cyclic" not in case["kind"] and case["kind"] != "selfloop") else "graph"
     c = G.build(cg, cd, via)
+    nv = len(ctx.violations)
+    decide(case, ctx, c, first=True)
+    if len(ctx.violations) > nv or not case.get("retype"):
+        return
+    # the same Circuit object after an in-place type change (an encoder must not answer for the old types)
+    g, t2 = case["retype"]
+    if g in c.graph.nodes and c.graph.nodes[g].get("type") in G.GATESN:
+        ok, _ = ctx.call(c.set_type, g, t2)
+        if ok:
+            ctx.count("requery_after_set_type")
+            decide(case, ctx, c, first=False)
+
+
+def decide(case, ctx, c, first):
+    cg = ctx.cg
+    cd = case["c"]
     net = Net.of(c)
     nodes = net.nodes()
     free = net.free()
-    ctx.count(f"class:{case['kind']}")
-    if case.get("hostile"):
-        ctx.count(case["hostile"])
-    G.gate_arity_table(cd, ctx.table)
+    if first:
+        ctx.count(f"class:{case['kind']}")
+        if case.get("hostile"):
+            ctx.count(case["hostile"])
+        G.gate_arity_table(cd, ctx.table)
     multi = [n for n in nodes if net.types[n] in G.GATESN and len(net.preds[n]) >= 2]
     if not multi or len(free) < 2:
         ctx.trivial()
@@ -363,7 +400,7 @@ def gates(counters, table, tier):
         for a in ("1", "2", "3", "4+"):
             if table.get(f"{t}/{a}", 0) < 3:
                 out.append(f"gate {t} at fan-in {a} seen {table.get(f'{t}/{a}', 0)} times")
-    for k in ("class:cyclic", "class:pins", "answer:unsat", "answer:sat", "cmp:cnf_exhaustive", "cnf_with_aux", "hostile:xor_a_b", "hostile:xor_inv", "class:lib", "class:large", "cnf_large_nodes_checked"):
+    for k in ("class:selfloop", "requery_after_set_type", "class:cyclic", "class:pins", "answer:unsat", "answer:sat", "cmp:cnf_exhaustive", "cnf_with_aux", "hostile:xor_a_b", "hostile:xor_inv", "class:lib", "class:large", "cnf_large_nodes_checked"):
         if counters.get(k, 0) < 3:
             out.append(f"{k} seen {counters.get(k, 0)} times")
     return out
